@@ -120,18 +120,18 @@ package gorums
 // C05 - routeResponse/cancelPendingMsgs delete a non-streaming router in the critical
 // section that answers it; one registration per node and call).
 
-//@ func (*channel).enqueue
-//@   props C01 C02 C06
-//@   requires c != nil
 
 //@ func (RawConfiguration).getMsgID
 //@   props C01 C02
 //@   requires len(c) > 0 && c[0] != nil && c[0].mgr != nil
 
 //@ func (RawConfiguration).QuorumCall
-//@   props C01 C02 C06
+//@   props C01 C02 C06 C05 C08 C09
+//@   blocks until ctx
+//@   opt effect-tags=C08.a
 //@   nopanic C01 C02
-//@   requires len(c) > 0 && forall(m, 0, len(c), c[m] != nil && c[m].channel != nil) && c[0].mgr != nil
+//@   requires len(c) > 0 && c[0].mgr != nil && forall(m, 0, len(c), c[m] != nil && c[m].channel != nil && \
+//@       c[m].channel.node != nil && c[m].channel.parentCtx != nil)
 //@   requires d.QuorumFunction != nil && ctx != nil
 //@   requires Incomplete != nil
 //@   ghost seen (Array Int Bool) = constarr("Int", false)
@@ -149,6 +149,7 @@ package gorums
 //@   loop "for _, n := range c"
 //@     invariant[C02.b] expectedReplies - (len(c) - idx) == ntarget && 0 <= ntarget && ntarget <= idx
 //@     invariant cap(replyChan) == len(c) && replyChan != nil && !closed(replyChan)
+//@     invariant[C09.a] ChCredit[replyChan] == len(c) - ntarget
 //@     invariant md != nil && ctx == old(ctx)
 //@   on call "d.PerNodeArgFn"
 //@     assert[C06.b] arg0 == old(d.Message) && arg1 == c[idx-1].id
@@ -204,9 +205,12 @@ package gorums
 //@   ensures[C02.c] typeis(err, "QuorumCallError") && err.(QuorumCallError).cause != Incomplete ==> done(ctx) && err.(QuorumCallError).cause == ctxErr(ctx)
 
 //@ func (RawConfiguration).AsyncCall
-//@   props C01 C02 C06
+//@   props C01 C02 C06 C05 C08 C09
+//@   blocks until ctx
+//@   opt effect-tags=C08.a
 //@   nopanic C01 C02
-//@   requires len(c) > 0 && forall(m, 0, len(c), c[m] != nil && c[m].channel != nil) && c[0].mgr != nil
+//@   requires len(c) > 0 && c[0].mgr != nil && forall(m, 0, len(c), c[m] != nil && c[m].channel != nil && \
+//@       c[m].channel.node != nil && c[m].channel.parentCtx != nil)
 //@   requires d.QuorumFunction != nil && ctx != nil
 //@   requires Incomplete != nil
 //@   ghost ntarget Int = 0
@@ -215,6 +219,7 @@ package gorums
 //@   loop "for _, n := range c"
 //@     invariant[C02.b] expectedReplies - (len(c) - idx) == ntarget && 0 <= ntarget && ntarget <= idx
 //@     invariant cap(replyChan) == len(c) && replyChan != nil && !closed(replyChan)
+//@     invariant[C09.a] ChCredit[replyChan] == len(c) - ntarget
 //@     invariant md != nil && ctx == old(ctx) && spawned == 0
 //@   on call "d.PerNodeArgFn"
 //@     assert[C06.b] arg0 == old(d.Message) && arg1 == c[idx-1].id
@@ -236,7 +241,9 @@ package gorums
 //@   ensures[C02.f] result != nil && spawned == 1
 
 //@ func (RawConfiguration).handleAsyncCall
-//@   props C01 C02
+//@   props C01 C02 C08 C18
+//@   blocks until ctx
+//@   opt effect-tags=C08.a
 //@   nopanic C01 C02
 //@   requires fut != nil && fut.c != nil && !closed(fut.c) && ctx != nil
 //@   requires state.data.QuorumFunction != nil && state.expectedReplies >= 0
@@ -404,9 +411,12 @@ package gorums
 //@   ensures c.donech == old(c.donech)
 
 //@ func (RawConfiguration).CorrectableCall
-//@   props C11 C06
+//@   props C11 C06 C05 C08 C09
+//@   blocks until ctx
+//@   opt effect-tags=C08.a
 //@   nopanic C11
-//@   requires len(c) > 0 && forall(m, 0, len(c), c[m] != nil && c[m].channel != nil) && c[0].mgr != nil
+//@   requires len(c) > 0 && c[0].mgr != nil && forall(m, 0, len(c), c[m] != nil && c[m].channel != nil && \
+//@       c[m].channel.node != nil && c[m].channel.parentCtx != nil)
 //@   requires d.QuorumFunction != nil && ctx != nil
 //@   requires Incomplete != nil
 //@   ghost ntarget Int = 0
@@ -415,6 +425,7 @@ package gorums
 //@   loop "for _, n := range c"
 //@     invariant expectedReplies - (len(c) - idx) == ntarget && 0 <= ntarget && ntarget <= idx
 //@     invariant cap(replyChan) == len(c) && replyChan != nil && !closed(replyChan)
+//@     invariant[C09.a] ChCredit[replyChan] == len(c) - ntarget
 //@     invariant md != nil && ctx == old(ctx) && spawned == 0
 //@   on call "d.PerNodeArgFn"
 //@     assert[C06.b] arg0 == old(d.Message) && arg1 == c[idx-1].id
@@ -436,7 +447,9 @@ package gorums
 //@   ensures[C11.e] result != nil && spawned == 1
 
 //@ func (RawConfiguration).handleCorrectableCall
-//@   props C11
+//@   props C11 C08 C18
+//@   blocks until ctx
+//@   opt effect-tags=C08.a
 //@   nopanic C11
 //@   requires corr != nil && !corr.done && corr.level == LevelNotSet && ctx != nil
 //@   requires state.data.QuorumFunction != nil && state.expectedReplies >= 0 && state.md != nil
@@ -541,3 +554,490 @@ package gorums
 //@   props C13
 //@   nopanic C13
 //@   requires typeis(m, "*Message") ==> m.(*Message) != nil
+
+// ---------------------------------------------------------------- channel.go
+//
+// Send credits (DESIGN.md 2.4-2). ChCredit[ch] is the number of registrations the owner
+// of Go channel ch may still make: make(chan T, n) creates n; enqueue consumes one per
+// registration and stores it in the router entry (RouterCredit[channel][msgID]); a send
+// on a non-streaming router's channel consumes the entry's credit in the same critical
+// section that deletes the entry. Credits + buffered answers never exceed the capacity,
+// so a credited send cannot block and a call never receives more answers than it
+// registered for.
+//@ ghostheap ChCredit (Array Int Int)
+//@ ghostheap RouterCredit (Array Int (Array Int Int))
+
+//@ monitor channel.responseMut guards responseRouters props C05 C09 C18
+//@   invariant this.responseRouters != nil
+//@   invariant[C09.a] forall(id, in(id, this.responseRouters) ==> this.responseRouters[id].c != nil && \
+//@       !closed(this.responseRouters[id].c) && (!this.responseRouters[id].streaming ==> RouterCredit[this][id] == 1))
+//@ monitor channel.mu guards lastError latency props C09 C15
+//@ monitor channel.streamMut guards gorumsClient gorumsStream streamCtx cancelStream allows SendMsg NodeStream cancelStream props C09 C15
+
+//@ field channel.responseRouters guarded_by responseMut props C05 C15 C18
+//@ field channel.lastError guarded_by mu props C15
+//@ field channel.latency guarded_by mu props C15
+//@ field channel.gorumsClient guarded_by streamMut props C15
+//@ field channel.gorumsStream guarded_by streamMut props C15
+//@ field channel.streamCtx guarded_by streamMut props C15
+//@ field channel.cancelStream guarded_by streamMut props C15
+//@ field channel.sendQ immutable props C15
+//@ field channel.node immutable props C15
+//@ field channel.parentCtx immutable props C15
+//@ field channel.backoffCfg immutable props C15
+//@ field atomicFlag.flag atomic props C15
+
+//@ func (*channel).enqueue
+//@   props C01 C02 C03 C05 C06 C08 C09 C12 C18
+//@   nopanic C12
+//@   mode concurrent
+//@   requires c != nil && c.node != nil && req.msg != nil && req.msg.Metadata != nil && req.ctx != nil && c.parentCtx != nil
+//@   requires[C09.a] responseChan != nil ==> ChCredit[responseChan] >= 1 && !closed(responseChan)
+//@   ghost nreg Int = 0
+//@   ghost answered Int = 0
+//@   ghost queued Int = 0
+//@   on mapupdate "channel.responseRouters"
+//@     assert[C05.a] key == req.msg.Metadata.MessageID && val.c == responseChan && val.streaming == streaming
+//@     assert[C18.a] responseChan != nil && nreg == 0 && queued == 0
+//@     set ChCredit = store(ChCredit, responseChan, ChCredit[responseChan] - 1)
+//@     set RouterCredit = store(RouterCredit, c, store(RouterCredit[c], key, 1))
+//@     set nreg = nreg + 1
+//@   on call "c.routeResponse"
+//@     assert[C05.b] arg0 == req.msg.Metadata.MessageID && arg1.nid == c.node.id && arg1.err != nil && arg1.msg == nil
+//@     assert[C12.c] queued == 0 && answered == 0
+//@     after set answered = answered + 1
+//@   on send "c.sendQ" as v
+//@     assert[C03.a] v == req && queued == 0 && answered == 0
+//@     assert[C05.a] responseChan != nil ==> nreg == 1
+//@     set queued = queued + 1
+//@   ensures[C18.a] responseChan == nil ==> nreg == 0
+//@   ensures[C05.a] responseChan != nil ==> nreg == 1
+//@   ensures[C12.c] queued + answered == 1
+//@   ensures[C09.a] responseChan != nil ==> ChCredit[responseChan] == old(ChCredit[responseChan]) - 1
+//@   ensures[C09.a] forall(ch, ch != responseChan ==> ChCredit[ch] == old(ChCredit[ch]))
+//@   blocks until req.ctx
+//@   opt effect-tags=C08.a
+
+//@ func (*channel).routeResponse
+//@   props C01 C05 C07 C09 C18
+//@   nopanic C05
+//@   mode concurrent
+//@   requires c != nil
+//@   ghost had Bool = false
+//@   ghost wasStreaming Bool = false
+//@   ghost target Int = 0
+//@   ghost sends Int = 0
+//@   ghost has0 (Array Int Bool) = constarr("Int", false)
+//@   ghost val0 (Array Int S_gorums_responseRouter) = mval(c.responseRouters)
+//@   on call "c.responseMut.Lock"
+//@     after set had = in(msgID, c.responseRouters)
+//@     after set wasStreaming = c.responseRouters[msgID].streaming
+//@     after set target = c.responseRouters[msgID].c
+//@     after set has0 = mhas(c.responseRouters)
+//@     after set val0 = mval(c.responseRouters)
+//@   on send "router.c" as v
+//@     assert[C05.a] had && ch == target && v == resp && sends == 0
+//@     nonblocking[C09.a] !wasStreaming ==> RouterCredit[c][msgID] >= 1
+//@     nonblocking[C09.a] wasStreaming ==> RouterCredit[c][msgID] >= 1
+//@     set RouterCredit = store(RouterCredit, c, store(RouterCredit[c], msgID, RouterCredit[c][msgID] - 1))
+//@     set sends = sends + 1
+//@   ensures[C05.d] sends == ite(had, 1, 0)
+//@   ensures[C05.c,C18.a] had && !wasStreaming ==> !in(msgID, c.responseRouters)
+//@   ensures[C05.a] forall(id, id != msgID ==> (in(id, c.responseRouters) <==> has0[id]) && (has0[id] ==> c.responseRouters[id] == val0[id]))
+//@   blocks never
+//@   opt effect-tags=C09.a
+
+//@ func (*channel).deleteRouter
+//@   props C09 C18
+//@   nopanic C18
+//@   mode concurrent
+//@   requires c != nil
+//@   ensures[C18.a] !in(msgID, c.responseRouters)
+//@   blocks never
+
+// ---------------------------------------------------------------- rpc.go, unicast.go, multicast.go, callopts.go
+
+//@ func (*RawManager).getMsgID
+//@   props C05
+//@   nopanic C05
+//@   mode concurrent
+//@   requires m != nil
+//@   ensures[C05.d] result >= 1
+
+//@ func (*RawNode).RPCCall
+//@   props C03 C05 C06 C08 C09
+//@   nopanic C08
+//@   requires n != nil && n.mgr != nil && n.channel != nil && n.channel.node != nil && n.channel.parentCtx != nil && ctx != nil
+//@   ghost nenq Int = 0
+//@   on call "n.channel.enqueue"
+//@     assert[C06.a] recv == n.channel && arg0.msg.Message == d.Message && arg0.msg.Metadata.Method == d.Method && arg0.ctx == ctx
+//@     assert[C05.a] arg1 == replyChan && cap(replyChan) == 1 && fresh(replyChan) && arg2 == false && arg0.opts.callType == nil
+//@     assert[C06.d] nenq == 0
+//@     after set nenq = nenq + 1
+//@   on recv "replyChan" as r
+//@     set lastR = r
+//@   ghost lastR response = zero("response")
+//@   ensures[C06.d] nenq == 1
+//@   ensures[C08.c] done(ctx) && result1 == ctxErr(ctx) && result0 == nil || (result0 == lastR.msg && result1 == lastR.err)
+//@   blocks until ctx
+//@   opt effect-tags=C08.a
+
+//@ func getCallOptions
+//@   props C06
+//@   nopanic C06
+//@   requires forall(m, 0, len(opts), opts[m] != nil)
+//@   loop "for _, opt := range opts"
+//@     invariant o.callType == callType
+//@   on call "opt"
+//@     after assume o.callType == callType
+//@   ensures[C06.e] result.callType == callType
+
+//@ func (*RawNode).Unicast
+//@   props C03 C06 C08 C09 C12
+//@   nopanic C12
+//@   requires n != nil && n.mgr != nil && n.channel != nil && n.channel.node != nil && n.channel.parentCtx != nil && ctx != nil
+//@   requires forall(m, 0, len(opts), opts[m] != nil)
+//@   ghost nenq Int = 0
+//@   ghost nwait Int = 0
+//@   on call "n.channel.enqueue"
+//@     assert[C06.a] recv == n.channel && arg0.msg.Message == d.Message && arg0.msg.Metadata.Method == d.Method && arg0.ctx == ctx
+//@     assert[C06.e] arg0.opts == o && arg2 == false
+//@     assert[C06.f] o.noSendWaiting ==> arg1 == nil
+//@     assert[C06.e] !o.noSendWaiting ==> arg1 == replyChan && cap(replyChan) == 1 && fresh(replyChan)
+//@     assert[C06.d] nenq == 0
+//@     after set nenq = nenq + 1
+//@   on recv "replyChan"
+//@     assert[C06.f] !o.noSendWaiting && nenq == 1 && nwait == 0
+//@     set nwait = nwait + 1
+//@   ensures[C06.d] nenq == 1
+//@   ensures[C06.f] o.noSendWaiting ==> nwait == 0
+//@   blocks until ctx
+//@   opt effect-tags=C08.a
+
+//@ func (RawConfiguration).Multicast
+//@   props C03 C06 C08 C09 C12
+//@   nopanic C12
+//@   requires len(c) > 0 && c[0].mgr != nil && forall(m, 0, len(c), c[m] != nil && c[m].channel != nil && \
+//@       c[m].channel.node != nil && c[m].channel.parentCtx != nil)
+//@   requires ctx != nil && forall(m, 0, len(opts), opts[m] != nil)
+//@   ghost pnMsg Iface = nilI()
+//@   ghost nwait Int = 0
+//@   ghost sent0 Int = 0
+//@   loop "for _, n := range c"
+//@     invariant[C06.c] 0 <= sentMsgs && sentMsgs <= idx && md != nil && ctx == old(ctx) && nwait == 0
+//@     invariant !o.noSendWaiting ==> replyChan != nil && !closed(replyChan) && cap(replyChan) == len(c) && ChCredit[replyChan] == len(c) - sentMsgs
+//@     invariant o.noSendWaiting ==> replyChan == nil
+//@   on call "d.PerNodeArgFn"
+//@     assert[C06.b] arg0 == old(d.Message) && arg1 == c[idx-1].id
+//@     after assume res0 != nil
+//@     after set pnMsg = res0
+//@   on call "n.channel.enqueue"
+//@     assert[C06.a] old(d.PerNodeArgFn) == nil ==> arg0.msg.Message == old(d.Message)
+//@     assert[C06.b] old(d.PerNodeArgFn) != nil ==> arg0.msg.Message == pnMsg
+//@     assert[C06.a] recv == c[idx-1].channel && arg0.ctx == old(ctx) && arg0.msg.Metadata == md && md.Method == old(d.Method)
+//@     assert[C06.e] arg0.opts == o && arg1 == replyChan && arg2 == false
+//@   loop "for ; sentMsgs > 0; sentMsgs--"
+//@     enter set sent0 = sentMsgs
+//@     invariant[C06.c] 0 <= sentMsgs && nwait + sentMsgs == sent0 && !o.noSendWaiting
+//@     decreases sentMsgs
+//@   on recv "replyChan"
+//@     assert[C06.f] !o.noSendWaiting
+//@     set nwait = nwait + 1
+//@   ensures[C06.f] o.noSendWaiting ==> nwait == 0
+//@   blocks until ctx
+//@   opt effect-tags=C08.a
+
+//@ func (*channel).cancelPendingMsgs
+//@   props C05 C07 C09 C18
+//@   nopanic C07
+//@   mode concurrent
+//@   requires c != nil && c.node != nil && streamDownErr != nil
+//@   ghost had0 (Array Int Bool) = constarr("Int", false)
+//@   ghost str0 (Array Int Bool) = constarr("Int", false)
+//@   on call "c.responseMut.Lock"
+//@     after set had0 = mhas(c.responseRouters)
+//@   loop "for msgID, router := range c.responseRouters"
+//@     invariant c.responseRouters != nil
+//@     invariant[C07.e] forall(id, visited(id) ==> !in(id, c.responseRouters))
+//@     invariant forall(id, in(id, c.responseRouters) ==> had0[id])
+//@     invariant[C09.a] forall(id, in(id, c.responseRouters) ==> c.responseRouters[id].c != nil && \
+//@       !closed(c.responseRouters[id].c) && (!c.responseRouters[id].streaming ==> RouterCredit[c][id] == 1))
+//@   on send "router.c" as v
+//@     assert[C05.b,C07.b] v.nid == c.node.id && v.err == streamDownErr && v.msg == nil
+//@     assert[C05.a] ch == c.responseRouters[msgID].c
+//@     nonblocking[C09.a] !router.streaming ==> RouterCredit[c][msgID] >= 1
+//@     nonblocking[C09.a] router.streaming ==> RouterCredit[c][msgID] >= 1
+//@     set RouterCredit = store(RouterCredit, c, store(RouterCredit[c], msgID, RouterCredit[c][msgID] - 1))
+//@   ensures[C07.e,C18.a] forall(id, !in(id, c.responseRouters))
+//@   blocks never
+//@   opt effect-tags=C09.a
+
+//@ func (*channel).setLastErr
+//@   props C15
+//@   mode concurrent
+//@   requires c != nil
+//@   blocks never
+//@ func (*channel).lastErr
+//@   props C15
+//@   mode concurrent
+//@   requires c != nil
+//@   blocks never
+//@ func (*channel).channelLatency
+//@   props C15
+//@   mode concurrent
+//@   requires c != nil
+//@   blocks never
+
+//@ func (*channel).sendMsg
+//@   props C03 C06 C07 C08 C09 C12 C15 C18
+//@   mode concurrent
+//@   requires c != nil && c.node != nil && req.msg != nil && req.msg.Metadata != nil && req.ctx != nil
+//@   ghost conf Int = 0
+//@   ghost nsend Int = 0
+//@   ghost spawned Int = 0
+//@   ghost nclose Int = 0
+//@   on call "c.routeResponse"
+//@     assert[C06.e] req.opts.callType != nil && !req.opts.noSendWaiting && conf == 0
+//@     assert[C05.a] arg0 == req.msg.Metadata.MessageID && arg1 == zero("response")
+//@     assert[C09.b] nolocks()
+//@     after set conf = conf + 1
+//@   on call "c.gorumsStream.SendMsg"
+//@     assert[C03.b] nsend == 0 && arg0 == iface("*Message", req.msg) && heldR(c.streamMut)
+//@     assert[C08.b] spawned == 1 && nclose == 0
+//@     after set nsend = nsend + 1
+//@   on go "func*"
+//@     assert[C18.b] spawned == 0
+//@     set spawned = spawned + 1
+//@   on close "done"
+//@     assert[C18.b] spawned == 1 && nclose == 0
+//@     set nclose = nclose + 1
+//@   ensures[C06.e,C18.a] req.opts.callType != nil && !req.opts.noSendWaiting ==> conf == 1
+//@   ensures[C06.e] !(req.opts.callType != nil && !req.opts.noSendWaiting) ==> conf == 0
+//@   ensures[C18.b] spawned == nclose && spawned <= 1
+//@   ensures[C03.b,C06.d] nsend <= 1 && (nsend == 0 ==> err != nil)
+//@   blocks until req.ctx
+//@   opt effect-tags=C08.b
+//@   opt external-ok=SendMsg
+
+// The watcher goroutine of sendMsg: it must end when done is closed, and may cancel the
+// stream only through state it may legally read.
+//@ func (*channel).sendMsg$2
+//@   props C08 C15 C18
+//@   mode concurrent
+//@   blocks until req.ctx
+//@   opt effect-tags=C18.b
+
+//@ func (*channel).sender
+//@   props C03 C07 C10 C12 C18
+//@   mode concurrent
+//@   requires c != nil && c.node != nil && c.parentCtx != nil && streamDownErr != nil
+//@   ghost pending Bool = false
+//@   ghost tried Bool = false
+//@   ghost cur request = zero("request")
+//@   loop "for {"
+//@     invariant[C07.b] !pending
+//@   on recv "c.sendQ" as r
+//@     assume r.msg != nil && r.msg.Metadata != nil && r.ctx != nil
+//@     set pending = true
+//@     set tried = false
+//@     set cur = r
+//@   on call "c.connect"
+//@     assert[C10.a] pending
+//@     after set tried = true
+//@   on call "c.routeResponse"
+//@     assert[C07.b] pending && arg0 == cur.msg.Metadata.MessageID && arg1.nid == c.node.id && arg1.err != nil && arg1.msg == nil
+//@     set pending = false
+//@   on call "c.sendMsg"
+//@     assert[C03.b] pending && arg0 == cur
+//@     after set pending = pending && res0 != nil
+//@   blocks until c.parentCtx
+//@   opt effect-tags=C12.a
+//@   opt external-ok=sendMsg,connect
+
+//@ func (*channel).receiver
+//@   props C05 C07 C09 C12
+//@   mode concurrent
+//@   requires c != nil && c.node != nil && c.parentCtx != nil && streamDownErr != nil
+//@   ghost cancelled Int = 0
+//@   loop "for {"
+//@     invariant cancelled == 0
+//@   on call "c.cancelPendingMsgs"
+//@     assert[C09.b] nolocks()
+//@     after set cancelled = 1
+//@   on call "c.reconnect"
+//@     assert[C07.e] cancelled == 1 && nolocks()
+//@     after set cancelled = 0
+//@   on call "c.routeResponse"
+//@     assert[C05.a] arg0 == resp.Metadata.MessageID && arg1.msg == resp.Message
+//@     assert[C05.b] arg1.nid == c.node.id
+//@     assert[C09.b] nolocks()
+//@   blocks until c.parentCtx
+//@   opt effect-tags=C12.a
+//@   opt external-ok=RecvMsg,reconnect
+
+//@ func (*channel).newNodeStream
+//@   props C03 C10 C15
+//@   mode concurrent
+//@   requires c != nil && c.parentCtx != nil && c.node != nil && streamDownErr != nil
+//@   ghost nrecv Int = 0
+//@   on call "c.gorumsClient.NodeStream"
+//@     assert[C10.c] ctxParent(arg0) == c.parentCtx && held(c.streamMut)
+//@   on go "c.receiver"
+//@     assert[C03.b] nrecv == 0
+//@     set nrecv = nrecv + 1
+//@   ensures[C10.a] conn == nil ==> result != nil
+//@   ensures[C03.b] nrecv <= 1
+
+//@ func (*channel).reconnect
+//@   props C09 C10 C12 C15
+//@   mode concurrent
+//@   requires c != nil && c.parentCtx != nil
+//@   on call "c.gorumsClient.NodeStream"
+//@     assert[C10.c] ctxParent(arg0) == c.parentCtx && held(c.streamMut)
+//@   blocks until c.parentCtx
+//@   opt effect-tags=C12.a
+//@   opt external-ok=NodeStream
+
+//@ func (*channel).connect
+//@   props C10 C12
+//@   mode concurrent
+//@   requires c != nil && c.node != nil && c.parentCtx != nil && streamDownErr != nil
+
+//@ func newChannel
+//@   props C03 C10 C12
+//@   requires n != nil && n.mgr != nil && streamDownErr != nil
+//@   ghost nsender Int = 0
+//@   on go "c.sender"
+//@     assert[C03.b] nsender == 0 && recv == c && c.node == n && c.parentCtx != nil && c.sendQ != nil && c.responseRouters != nil
+//@     set nsender = nsender + 1
+//@   ensures[C03.b] nsender == 1 && result != nil && result.node == n
+
+// ---------------------------------------------------------------- server.go
+//
+// Hand-over protocol of NodeStream (C04): mut is allocated per stream and starts locked
+// by the loop; `go handler` hands the (locked) mutex to the handler just started - the
+// only other holder of &mut is that handler's ServerCtx - and the loop's next mut.Lock()
+// returns only after that handler (or its implicit Release) unlocked it. Ghost counters:
+// started / awaited; token == true when the loop holds the lock.
+
+//@ func WrapMessage
+//@   props C07 C13 C01
+//@   nopanic C07
+//@   requires md != nil
+//@   ensures[C01.b] result != nil && result.Metadata == md && result.Message == resp
+//@   ensures[C07.c] err == nil ==> md.Status == protoOf(statusOfErr(err))
+//@   ensures[C07.c] err != nil && isStatusErr(err) ==> md.Status == protoOf(statusOfErr(err))
+//@   ensures[C07.c] err != nil && !isStatusErr(err) ==> md.Status == protoOf(newStatus(2, errText(err)))
+//@   ensures[C01.b] md.MessageID == old(md.MessageID) && md.Method == old(md.Method)
+
+//@ func SendMessage
+//@   props C04 C08
+//@   requires ctx != nil
+//@   blocks until ctx
+
+//@ func (*ServerCtx).Release
+//@   props C04
+//@   nopanic C04
+//@   requires ctx != nil && ctx.once != nil && ctx.mut != nil
+//@   ghost viaOnce Int = 0
+//@   on call "ctx.once.Do"
+//@     set viaOnce = viaOnce + 1
+//@   on call "ctx.mut.Unlock"
+//@     assert[C04.b] false
+//@   ensures[C04.b] viaOnce == 1
+//@   opt semaphore=obj
+//@   opt optional-hooks=1
+
+//@ func (*orderingServer).NodeStream
+//@   props C03 C04 C10
+//@   nopanic C04
+//@   requires s != nil && s.opts != nil && srv != nil
+//@   ghost started Int = 0
+//@   ghost awaited Int = 0
+//@   ghost callbacks Int = 0
+//@   ghost recvs Int = 0
+//@   on call "s.opts.connectCallback"
+//@     assert[C10.d] callbacks == 0 && recvs == 0 && arg0 == srvCtx(srv)
+//@     after set callbacks = callbacks + 1
+//@   loop "for {"
+//@     invariant[C04.a] started == awaited && heldobj(addr(mut))
+//@     invariant[C10.d] callbacks == ite(s.opts.connectCallback != nil, 1, 0) && ctx == srvCtx(srv)
+//@   on call "srv.RecvMsg"
+//@     assert[C04.a] started == awaited && heldobj(addr(mut))
+//@     after set recvs = recvs + 1
+//@   on go "handler"
+//@     assert[C04.a,C03.c] started == awaited && heldobj(addr(mut)) && arg1 == req && arg2 == finished
+//@     assert[C04.b] fresh(arg0.once) && arg0.mut == addr(mut) && arg0.Context == srvCtx(srv)
+//@     set started = started + 1
+//@   on call "mut.Lock"
+//@     assert[C04.a] started == awaited + 1 || (started == 0 && awaited == 0)
+//@     after set awaited = started
+//@   opt handover=mut
+
+// ---------------------------------------------------------------- node.go, mgr.go (connection life cycle)
+
+//@ field RawManager.nodes guarded_by mu props C15
+//@ field RawManager.lookup guarded_by mu props C15
+//@ field RawManager.nextMsgID atomic props C05 C15
+//@ monitor RawManager.mu guards nodes lookup nodes[] props C09 C15
+//@   invariant[C14.f] forall(k, 0, len(this.nodes), this.nodes[k] != nil)
+//@   invariant[C14.f] this.lookup != nil && forall(id, in(id, this.lookup) ==> this.lookup[id] != nil && this.lookup[id].id == id)
+
+//@ func (*RawNode).close
+//@   props C12
+//@   nopanic C12
+//@   requires n != nil
+//@   ghost cancelled Int = 0
+//@   on call "n.cancel"
+//@     after set cancelled = cancelled + 1
+//@   on call "n.conn.Close"
+//@     assert[C12.a] cancelled == 1 || n.cancel == nil
+//@   ensures[C12.a] n.cancel != nil ==> cancelled == 1
+//@   opt optional-hooks=1
+
+//@ func (*RawNode).newContext
+//@   props C10
+//@   requires n != nil && n.mgr != nil
+//@   ghost general Int = 0
+//@   ghost pernode Int = 0
+//@   ghost joined Int = 0
+//@   ghost njoin Int = 0
+//@   on call "n.mgr.opts.metadata.Copy"
+//@     assert[C10.c] recv == n.mgr.opts.metadata
+//@     after set general = res0
+//@   on call "n.mgr.opts.perNodeMD"
+//@     assert[C10.c] arg0 == n.id
+//@     after set pernode = res0
+//@   on call "metadata.Join"
+//@     assert[C10.c] len(arg0) == 2 && arg0[0] == general && arg0[1] == pernode && njoin == 0
+//@     after set joined = res0
+//@     after set njoin = njoin + 1
+//@   on call "metadata.NewOutgoingContext"
+//@     assert[C10.c] n.mgr.opts.perNodeMD == nil ==> arg1 == general && njoin == 0
+//@     assert[C10.c] n.mgr.opts.perNodeMD != nil ==> arg1 == joined && njoin == 1
+//@   ensures[C10.c] result != nil && n.cancel != nil
+
+//@ func (*RawManager).Nodes
+//@   props C12 C14 C15
+//@   nopanic C12
+//@   mode concurrent
+//@   requires m != nil
+//@   ensures[C14.a] forall(k, 0, len(result), result[k] != nil)
+
+//@ func (*RawManager).closeNodeConns
+//@   props C12 C15
+//@   nopanic C12
+//@   mode concurrent
+//@   requires m != nil
+//@   ghost closed Int = 0
+//@   loop "for _, node := range"
+//@     invariant[C12.a] closed == idx
+//@   on call "node.close"
+//@     assert[C12.a] closed == idx - 1
+//@     after set closed = closed + 1
+//@   opt optional-hooks=1
+
+//@ func (*RawManager).Close
+//@   props C12
+//@   nopanic C12
+//@   requires m != nil
